@@ -31,7 +31,7 @@ def Finite : Ratio → Prop
   | _ => False
 
 /-- one constraint per error message of `Config.Validate`, in the order of the messages -/
-def numConstraints : Nat := 16
+def numConstraints : Nat := 17
 
 def Constraint (c : Cfg) : Nat → Prop
   | 0 => 0 < c.Version                       -- invalid version %d
@@ -50,6 +50,7 @@ def Constraint (c : Cfg) : Nat → Prop
   | 13 => 0 < c.TxCleanupInterval            -- Transaction cleanup interval must be positive
   | 14 => 1 ≤ c.TxWarningThreshold ∧ c.TxWarningThreshold ≤ 99          -- … warning threshold must be between 1 and 99
   | 15 => c.TxWarningThreshold < c.TxCriticalThreshold ∧ c.TxCriticalThreshold ≤ 99   -- … between warning threshold and 99
+  | 16 => ValidUTF8 c.WALDir ∧ ValidUTF8 c.SSTDir   -- directory paths must be valid UTF-8 (repair of KF-C20-utf8)
   | _ => True
 
 /-- a configuration is valid iff it satisfies every documented constraint -/
